@@ -231,7 +231,6 @@ def extend_schema(
     types = [
         cast(NamedType, builder.extend_type(t))
         for t in schema.types.values()
-        if t.name in type_exts
     ] + [
         cast(NamedType, builder.extend_type(builder.build_type(t)))
         for t in type_defs.values()
